@@ -153,3 +153,15 @@ Section Interp.
     | None => None
     end.
 End Interp.
+
+(* ---------------------------------------------------------------- wire *)
+Definition as_modifier (x : sx) : modifier :=
+  match as_Z x with 0%Z => MGlobal | 1%Z => MAdaptive | _ => MPerObject end.
+Definition as_lab0 (x : sx) : option (list bool) :=
+  match as_list x with [] => None | y :: _ => Some (as_bools y) end.
+Definition of_val (v : val) : sx :=
+  match v with
+  | VNone => L []
+  | VNum q => L [I 0; of_Q q]
+  | VArr a => L [I 1; of_Qs a]
+  end.
